@@ -89,6 +89,9 @@ func verifH_C01_accept() {
 		verifAssert(post.acceptN == pre.acceptN, "C17: refused publish consumed an identifier")
 		verifAssert(ex == nil, "C14: refused publish returned an exchange channel")
 		verifReach("refused-max")
+		if verifParam("reconnect", 1) == 1 {
+			o.reconnect("C01")
+		}
 		o.observe("C01")
 		return
 	}
@@ -101,6 +104,9 @@ func verifH_C01_accept() {
 		verifAssert(post.acceptN == pre.acceptN, "C17: failed publish consumed an identifier")
 		verifAssert(ex == nil, "C14: failed publish returned an exchange channel")
 		verifReach("save-failed")
+		if verifParam("reconnect", 1) == 1 {
+			o.reconnect("C01")
+		}
 		o.observe("C01")
 		return
 	}
@@ -147,6 +153,9 @@ func verifH_C01_accept() {
 		o.q1 = append(o.q1, e)
 	} else {
 		o.q2 = append(o.q2, e)
+	}
+	if verifParam("reconnect", 1) == 1 {
+		o.reconnect("C01")
 	}
 	o.observe("C01")
 	o.drain("C01")
@@ -268,12 +277,16 @@ func verifH_C01_ack() {
 				if err == nil {
 					verifReach("pubrec-applied")
 				} else {
+					o.retryOK = rel
 					verifReach("pubrec-write-failed")
 				}
 			}
 			st, _ := verifExState(o.q2[wr].ex)
 			verifAssert(st == 0, "C01: exchange signalled on PUBREC")
 		}
+	}
+	if verifParam("reconnect", 1) == 1 {
+		o.reconnect("C01/C03")
 	}
 	o.observe("C01/C03")
 	o.drain("C01/C03")
